@@ -193,7 +193,9 @@ def main():
         "evaluations": int(total.get("ops", 0) or 0),
         "distinct_nontrivial": int(hist.get("variants_full", 0) + hist.get("variants_shuffle", 0) + hist.get("container_ops", 0) + hist.get("unstable_map_ops", 0)
                                    + hist.get("comparator_calls", 0)),
-        "rule": "design stream: designs from harness/designgen.h (+ areas marked as partitions, names, comments) and heap-allocated-state FSMs; export single file / "
+        "rule": "design stream: designs from harness/designgen.h (+ areas marked as partitions, names, comments), heap-allocated-state FSMs and (every 4th case) "
+                "registers / memory read ports enabled by 2..4-term conjunctions from nested ENIF scopes and `&` chains that post-processing rebuilds (backward retiming into a "
+                "memory read port, pipestage over movable registers, negative registers; unrelated allocations between construction steps); export single file / "
                 "file per partition, default/GHDL/Quartus/Vivado project writers, with and without the test-bench recorder; each built 2x in each of >=4 (thorough 8) "
                 "child processes with different heap layouts + 3 node-order shuffles; non-trivial = every construction compared byte-for-byte with the reference "
                 "construction. container stream: op histories / comparator calls / std::sort / UnstableMap observations on real nodes, clocks, groups whose address "
